@@ -8,8 +8,11 @@ ASSUMPTIONS = [
     "filesystem = ModelFS (pure-Python model with call log); what decodes under which encoding is a free boolean per tried encoding (over-approximates real codecs)",
     "written text is compared at parameter level: the marker sequence written to the model filesystem must denote exactly the parameters of serialize(simfile at exit / at entry) (StubParam recorder); "
     "the no-op-second-mutate clause runs with the real serializer and tokenizer on concrete edits",
+    "byte-level family (bytes[...]): BytesFS holds bytes, text-mode reads/writes go through Python's real codecs (trusted base), binary reads allowed; a finite family of contents and configurations, enumerated "
+    "exhaustively in plain Python - these obligations are NOT solver-decided (CrossHair substitutes its own codec models) and are reported as such",
+    "a use of the model filesystem that the model cannot answer (e.g. a binary read where decoding is an abstract outcome bit) makes the obligation inconclusive (ModelLimit), never a violation",
 ]
-OUTSIDE = ["which byte strings decode under which real codec, bytes on disk, newline translation", "the native filesystem and real PyFilesystem implementations (I/O)", "edit values longer than 2 characters"]
+OUTSIDE = ["byte contents other than the 11 representatives of the byte-level family (there Python's real codecs decide; elsewhere decoding is a free outcome bit)", "newline translation", "the native filesystem and real PyFilesystem implementations (I/O)", "edit values longer than 2 characters"]
 
 
 def obligations(tier):
@@ -32,6 +35,9 @@ def signature(ob, res):
 
 def replay(data):
     from vlib import xh
+    if data.get("func") == "ob_bytes":
+        cex = data.get("cex") or {}
+        return xh.replay("xh_C05", dict(func=cex.get("fn"), cex=cex.get("args")))
     return xh.replay("xh_C05", data)
 
 
@@ -39,5 +45,9 @@ def main(tier):
     from vlib import core
     extra = core.run_obligations("harness.fsconf", [dict(name="fs_conformance", func="ob_fs_conformance", args=(), budget_s=120,
                                  bounds="21 concrete mutate/discovery scenarios: ModelFS vs real MemoryFS vs native temp directory (validation of the model filesystem; a disagreement is fatal)")])
+    extra += core.run_obligations("harness.bytesconf", [dict(name=f"bytes[content{ci}]", func="ob_bytes", args=(ci,), budget_s=300,
+                                  bounds="byte level, exhaustive concrete enumeration (not solver-decided: the C codecs are replaced by CrossHair's own models): one of 11 byte contents (ASCII, UTF-8, CP1252-only, "
+                                         "CP932, CP949, undecodable, incomplete multi-byte sequence at the very end, ...) x 6 try_encodings orders / explicit encoding= x output x backup x 4 edits x both formats, "
+                                         "on a byte-level model filesystem with Python's real codecs") for ci in range(11)])
     return xhprop.main(PROP, tier, FILE, obligations(tier), FUNCTIONS, ASSUMPTIONS, OUTSIDE, signature, extra_chars=(1 if tier == "thorough" else 0), extra_results=extra,
                        bounds="all decode-outcome vectors over the tried encodings, 6 orders + explicit encoding, {.sm,.ssc} x output x backup x name clashes x 5 edit operations with symbolic values <=2")
